@@ -910,6 +910,10 @@ package xmpp
 //@ spec stanzaName(n xml.Name) bool = (n.Local == "iq" || n.Local == "message" || n.Local == "presence") && (n.Space == "jabber:client" || n.Space == "jabber:server" || n.Space == "")
 //@ spec isID(a xml.Attr) bool = a.Name == mk(xml.Name, "", "id") && a.Value != ""
 //@ spec isFrom(a xml.Attr) bool = a.Name == mk(xml.Name, "", "from") && a.Value != ""
+// an unqualified id or from attribute without a value: dropped from a stanza's start element
+// one of the two attributes the stanza encoder adds: from (this stream's address) or a non-empty id
+//@ spec origOrAdded(a xml.Attr, from string) bool = (a.Name == mk(xml.Name, "", "from") && a.Value == from && from != "") || (a.Name == mk(xml.Name, "", "id") && a.Value != "")
+//@ spec emptyAddr(a xml.Attr) bool = a.Name.Space == "" && (a.Name.Local == "id" || a.Name.Local == "from") && a.Value == ""
 
 //@ func isStanzaEmptySpace
 //@   ensures[C05] result == stanzaName(name)
@@ -919,6 +923,9 @@ package xmpp
 //@   ghost fromStr string
 //@   callsite (mellium.im/xmpp/jid.JID).String#1
 //@     after: fromStr = ret0
+// after the first filter (view "attrs"): exactly the caller's attributes minus empty id/from
+//@     assert[C05,view:attrs] forall j int :: 0 <= j && j < len(tok.Attr) ==> exists k int :: 0 <= k && k < len(t.(xml.StartElement).Attr) && tok.Attr[j] == old(t.(xml.StartElement).Attr[k])
+//@     assert[C05,view:attrs] forall k int :: 0 <= k && k < len(t.(xml.StartElement).Attr) && !emptyAddr(old(t.(xml.StartElement).Attr[k])) ==> exists j int :: 0 <= j && j < len(tok.Attr) && tok.Attr[j] == old(t.(xml.StartElement).Attr[k])
 //@   callsite mellium.im/xmpp/internal/attr.RandomID#1
 //@     assert[C05] fromStr != "" ==> exists j int :: 0 <= j && j < len(tok.Attr) && isFrom(tok.Attr[j])
 //@   callsite EncodeToken#1
@@ -931,17 +938,40 @@ package xmpp
 //@     assert[C05,thorough] typeof(t) == xml.StartElement && old(se.depth) == 0 && stanzaName(t.(xml.StartElement).Name) && fromStr != "" ==> exists i int :: 0 <= i && i < len(arg1.(xml.StartElement).Attr) && isFrom(arg1.(xml.StartElement).Attr[i])
 //@     assert[C05] typeof(t) == xml.StartElement && arg1.(xml.StartElement).Name.Space != "" ==> forall i int :: 0 <= i && i < len(arg1.(xml.StartElement).Attr) ==> arg1.(xml.StartElement).Attr[i].Name.Local != "xmlns"
 //@     assert[C05] typeof(t) == xml.EndElement ==> arg1.(xml.EndElement).Name.Local == t.(xml.EndElement).Name.Local && arg1.(xml.EndElement).Name.Space == ite(old(se.depth) == 1 && t.(xml.EndElement).Name.Space == "" && stanzaName(t.(xml.EndElement).Name), old(se.ns), t.(xml.EndElement).Name.Space)
+// nothing else is altered (view "attrs", start elements other than a stanza's
+// own start tag): the forwarded element carries nothing but attributes of the
+// caller's (that none but xmlns attributes are dropped is the third loop-2
+// invariant; its restatement at this call does not discharge and is left out)
+//@     assert[C05,thorough,view:attrs] typeof(t) == xml.StartElement && !(old(se.depth) == 0 && stanzaName(t.(xml.StartElement).Name)) ==> forall i int :: 0 <= i && i < len(arg1.(xml.StartElement).Attr) ==> exists k int :: 0 <= k && k < len(t.(xml.StartElement).Attr) && arg1.(xml.StartElement).Attr[i] == old(t.(xml.StartElement).Attr[k])
 //@     preserves se.depth
 //@   ensures[C05] se.depth == old(se.depth) + ite(typeof(t) == xml.StartElement, 1, ite(typeof(t) == xml.EndElement, -1, 0))
 //@   loop 1
 //@     invariant[C05] len(attrs) <= rangeindex + 1 && len(attrs) >= 0 && samearray(attrs, tok.Attr) && cap(attrs) >= len(tok.Attr)
 //@     invariant[C05] foundID ==> exists j int :: 0 <= j && j < len(attrs) && isID(attrs[j])
 //@     invariant[C05] foundFrom ==> exists j int :: 0 <= j && j < len(attrs) && isFrom(attrs[j])
+// view "attrs": nothing else is altered. The attribute filter works in place;
+// what it has not read yet is still the caller's, everything it has kept is
+// one of the caller's attributes, and every attribute it has read that is not
+// an empty id/from is kept.
+//@     invariant[C05,view:attrs] forall k int :: rangeindex < k && k < len(tok.Attr) ==> tok.Attr[k] == old(t.(xml.StartElement).Attr[k])
+//@     invariant[C05,view:attrs] forall j int :: 0 <= j && j < len(attrs) ==> exists k int :: 0 <= k && k <= rangeindex && k < len(t.(xml.StartElement).Attr) && attrs[j] == old(t.(xml.StartElement).Attr[k])
+//@     invariant[C05,view:attrs] forall k int :: 0 <= k && k <= rangeindex && !emptyAddr(old(t.(xml.StartElement).Attr[k])) ==> exists j int :: 0 <= j && j < len(attrs) && attrs[j] == old(t.(xml.StartElement).Attr[k])
 //@   loop 2
 //@     invariant[C05] len(attrs) <= rangeindex + 1 && len(attrs) >= 0 && samearray(attrs, tok.Attr) && cap(attrs) >= len(tok.Attr)
 //@     invariant[C05] tok.Name.Space != "" ==> forall j int :: 0 <= j && j < len(attrs) ==> attrs[j].Name.Local != "xmlns"
 //@     invariant[C05] old(se.depth) == 0 && stanzaName(t.(xml.StartElement).Name) ==> (exists j int :: 0 <= j && j < len(attrs) && isID(attrs[j])) || (exists j int :: rangeindex < j && j < len(tok.Attr) && isID(tok.Attr[j]))
 //@     invariant[C05,thorough] old(se.depth) == 0 && stanzaName(t.(xml.StartElement).Name) && fromStr != "" ==> (exists j int :: 0 <= j && j < len(attrs) && isFrom(attrs[j])) || (exists j int :: rangeindex < j && j < len(tok.Attr) && isFrom(tok.Attr[j]))
+// view "attrs", second filter (thorough tier; for start elements that are not a
+// stanza's own start tag, where the filter works on the caller's slice): same
+// three facts as for the first filter, with the xmlns rule as the only reason
+// to drop an attribute. For a stanza's start tag the composition of the two
+// filters and the two appends was written down as well but does not discharge
+// within the time limits (the queries need 20-120 s and are unstable), so it is
+// not claimed: there the proved part ends after the first filter.
+// any other start element: the filter works on the caller's own slice
+//@     invariant[C05,thorough,view:attrs] !(old(se.depth) == 0 && stanzaName(t.(xml.StartElement).Name)) ==> len(tok.Attr) == len(t.(xml.StartElement).Attr) && samearray(tok.Attr, t.(xml.StartElement).Attr) && forall k int :: rangeindex < k && k < len(tok.Attr) ==> tok.Attr[k] == old(t.(xml.StartElement).Attr[k])
+//@     invariant[C05,thorough,view:attrs] !(old(se.depth) == 0 && stanzaName(t.(xml.StartElement).Name)) ==> forall j int :: 0 <= j && j < len(attrs) ==> exists k int :: 0 <= k && k <= rangeindex && k < len(t.(xml.StartElement).Attr) && attrs[j] == old(t.(xml.StartElement).Attr[k])
+//@     invariant[C05,thorough,view:attrs] !(old(se.depth) == 0 && stanzaName(t.(xml.StartElement).Name)) ==> forall k int :: 0 <= k && k <= rangeindex && !(tok.Name.Space != "" && old(t.(xml.StartElement).Attr[k]).Name.Local == "xmlns") ==> exists j int :: 0 <= j && j < len(attrs) && attrs[j] == old(t.(xml.StartElement).Attr[k])
 
 // ---------------------------------------------------------------------------
 // C06 (sequential facet): the correlation table around a blocking send. The
